@@ -4,12 +4,55 @@
 // every call, the total-level bytes that reached the chip through the register tap (hook H1):
 //   [0, chipchannel, tl40, tl44, tl48, tl4C]   one complete TL update of a chip channel
 //   [1, chipchannel, instrument-id, fbalg]     an instrument (patch) upload
+//   [2, chipchannel, tl40, tl44, tl48, tl4C, midichannel, key, candidates]
+//                                              (executions started with "kon":1) a key-on of a chip channel: the four TL
+//                                              registers in force at that moment and the note the library keyed it for - the
+//                                              note hook fires right after the 0x28 write and names chip channel, tone, patch
+//                                              and velocity; the MIDI channel is looked up among the active notes that hold
+//                                              this chip channel (candidates = how many notes fit; 1 = unambiguous)
+// Executions started with "kon":1 also carry "al": [[midichannel, key, chipchannel], ...], the sounding notes after the
+// call (who is alive where: the trace specification keeps its own record of every note's loudness inputs).
+// "bend" = opn2_rt_pitchBend (every note of the MIDI channel is re-pitched and re-keyed).
+// "gen" lets the time pass: opn2_generate in blocks of "blk" frames until "fr" frames are rendered (arpeggio, note ends).
 // A "sweep" command performs one call per value of one control and records one entry per value.
 // Nothing is judged here: spec/LevelTrace.tla predicts and judges the bytes.
 #include "vh.hpp"
 
 static OPN2_MIDIPlayer *dev = NULL;
 static Tap *tap = NULL;
+
+static bool g_kon = false;          // record key-ons with their owner
+
+// Note hook: (chip channel, tone, patch, velocity, bend) right after OPN2::noteOn keyed the chip channel.
+// The hook is also called without a key-on (evacuation to another chip channel, note ends): only a call that
+// directly follows the 0x28 key-on write of the same chip channel describes a key-on (every key-on is claimed at
+// once, so a later call never finds an old one).  The velocity may be 0: floor(1 * 0.8) under the soft pedal.
+static void noteHook(void *, int adlchn, int note, int ins, int pressure, double)
+{
+    if(!g_kon || !tap || adlchn < 0 || tap->ops.empty()) return;
+    TapOp &last = tap->ops.back();
+    if(strcmp(last.o, "kon") != 0 || last.c != adlchn) return;
+    OPNMIDIplay *p = playerOf(dev);
+    int cands = 0, mch = -1, key = -1;
+    for(size_t c = 0; c < p->m_midiChannels.size(); ++c)
+    {
+        OPNMIDIplay::MIDIchannel &ch = p->m_midiChannels[c];
+        for(OPNMIDIplay::MIDIchannel::notes_iterator i = ch.activenotes.begin(); !i.is_end(); ++i)
+        {
+            OPNMIDIplay::MIDIchannel::NoteInfo &ni = i->value;
+            if(ni.isBlank || ni.noteTone != note || (int)ni.vol != pressure || (int)ni.midiins != ins) continue;
+            if(!ni.phys_find((unsigned)adlchn)) continue;
+            if(cands++ == 0) { mch = (int)c; key = ni.note; }
+        }
+    }
+    size_t chip = (size_t)adlchn / 6; unsigned port = ((unsigned)adlchn % 6) / 3, cc3 = (unsigned)adlchn % 3;
+    if(chip >= 100) return;
+    last.o = "own";
+    last.a = mch; last.b = key;
+    for(int k = 0; k < 4; ++k) last.x[k] = tap->shadow[chip][port][0x40 + cc3 + 4 * k];
+    // the number of candidates travels in a second op
+    tap->push("ownn", adlchn, cands);
+}
 
 static void writeOps(JW &w)
 {
@@ -21,6 +64,38 @@ static void writeOps(JW &w)
         { w.begin_arr(); w.num(0); w.num(t.c); for(int k = 0; k < 4; ++k) w.num(t.x[k]); w.end_arr(); }
         else if(!strcmp(t.o, "patch"))
         { w.begin_arr(); w.num(1); w.num(t.c); w.num(t.a); w.num(t.b); w.end_arr(); }
+        else if(g_kon && !strcmp(t.o, "own"))
+        {
+            int cands = (i + 1 < tap->ops.size() && !strcmp(tap->ops[i + 1].o, "ownn")) ? tap->ops[i + 1].a : 0;
+            w.begin_arr(); w.num(2); w.num(t.c); for(int k = 0; k < 4; ++k) w.num(t.x[k]); w.num(t.a); w.num(t.b); w.num(cands); w.end_arr();
+        }
+        else if(g_kon && !strcmp(t.o, "kon"))
+        {
+            // a key-on nobody claimed (no note hook call followed it): recorded with 0 candidates
+            size_t chip = (size_t)t.c / 6; unsigned port = ((unsigned)t.c % 6) / 3, cc3 = (unsigned)t.c % 3;
+            w.begin_arr(); w.num(2); w.num(t.c);
+            for(int k = 0; k < 4; ++k) w.num(chip < 100 ? tap->shadow[chip][port][0x40 + cc3 + 4 * k] : 0);
+            w.num(-1); w.num(-1); w.num(0); w.end_arr();
+        }
+    }
+    w.end_arr();
+}
+
+// the sounding notes: [MIDI channel, key, chip channel] per voice, in the library's own order
+static void writeAlive(JW &w)
+{
+    OPNMIDIplay *p = playerOf(dev);
+    w.key("al"); w.begin_arr();
+    for(size_t c = 0; c < p->m_midiChannels.size(); ++c)
+    {
+        OPNMIDIplay::MIDIchannel &ch = p->m_midiChannels[c];
+        for(OPNMIDIplay::MIDIchannel::notes_iterator i = ch.activenotes.begin(); !i.is_end(); ++i)
+        {
+            OPNMIDIplay::MIDIchannel::NoteInfo &ni = i->value;
+            if(ni.isBlank) continue;
+            for(unsigned k = 0; k < ni.chip_channels_count; ++k)
+            { w.begin_arr(); w.num((long long)c); w.num(ni.note); w.num(ni.chip_channels[k].chip_chan); w.end_arr(); }
+        }
     }
     w.end_arr();
 }
@@ -58,7 +133,9 @@ int main(int argc, char **argv)
             playerOf(dev)->m_synth->m_verifChanLimit = (uint32_t)c.get("lim", 0);
             opn2_setNumChips(dev, 1);
             if(installBanks(dev, c["banks"]) != 0) { fprintf(stderr, "INFRA: bank installation failed\n"); return 2; }
-            opn2_setAutoArpeggio(dev, 0);
+            opn2_setAutoArpeggio(dev, (int)c.get("arp", 0));
+            g_kon = c.get("kon", 0) != 0;
+            opn2_setNoteHook(dev, noteHook, NULL);
             if(c.get("ports", 1) >= 2)
             {
                 // two MIDI ports, as a song with FF 09 device names has them: channels 16..31 belong to the second one
@@ -104,6 +181,20 @@ int main(int argc, char **argv)
         else if(o == "mv") r = masterVolume((int)c.get("v"), (int)c.get("l", 0));
         else if(o == "on") r = opn2_rt_noteOn(dev, (OPN2_UInt8)c.get("ch"), (OPN2_UInt8)c.get("k"), (OPN2_UInt8)c.get("v"));
         else if(o == "off") opn2_rt_noteOff(dev, (OPN2_UInt8)c.get("ch"), (OPN2_UInt8)c.get("k"));
+        else if(o == "bend") opn2_rt_pitchBend(dev, (OPN2_UInt8)c.get("ch"), (OPN2_UInt16)c.get("v"));
+        else if(o == "gen")
+        {
+            static short pcm[2 * 4096];
+            long long fr = c.get("fr", 512), blk = c.get("blk", 512);
+            if(fr < 0 || fr > 400000 || blk < 1 || blk > 4096) return 2;
+            alarm(120);
+            while(fr > 0)
+            {
+                long long n = fr > blk ? blk : fr;
+                r += opn2_generate(dev, (int)(n * 2), pcm);
+                fr -= n;
+            }
+        }
         else if(o == "set")
         {
             std::string n = c.gets("s");
@@ -117,6 +208,7 @@ int main(int argc, char **argv)
         w.kv("r", r);
         w.kv("vmr", opn2_getVolumeRangeModel(dev));
         w.key("w"); writeOps(w);
+        if(g_kon) writeAlive(w);
         w.s += "}\n"; fputs(w.s.c_str(), g_trace);
     }
     if(dev) opn2_close(dev);
